@@ -9,7 +9,7 @@ name = sys.argv[1]
 d = os.path.join(V, "seeded", name)
 meta = json.load(open(os.path.join(d, "meta.json")))
 prop = meta["property"]
-checks = sys.argv[2:] or [prop]
+checks = [a for a in sys.argv[2:] if not a.startswith("--")] or [prop]
 wt = tempfile.mkdtemp(prefix="seedwt.")
 env = dict(os.environ, PYTHONHASHSEED="0")
 res = dict(seed=name, property=prop, head=subprocess.check_output(["git", "-C", "/repo", "rev-parse", "--short", "HEAD"]).decode().strip())
